@@ -201,6 +201,18 @@ def cellsOf : Style → List Item → Except Panic (List (Cell Str))
     else cellsOf s r
   | s, .seq _ :: r => cellsOf s r
 
+/-- The style a consumer holds after all items (text ignored): with `sgr := emuSgr` the embedded terminal's pen after
+    the string went through its parser (`widgets/term` dispatches `CSI … m` to `sgr` the same way). -/
+def penOf (sgr : Style → Seq → Except Panic Style) : Style → List Item → Except Panic Style
+  | s, [] => .ok s
+  | s, .seq (.csi _ ps f) :: r =>
+    if f = 0x6D then
+      match sgr s (ps.map (·.map Int.toNat)) with
+      | .ok s' => penOf sgr s' r
+      | .error e => .error e
+    else penOf sgr s r
+  | s, _ :: r => penOf sgr s r
+
 /-- `ParseStyledString(s)`. -/
 def parseStyledB (cl : Str → Nat) (s : Str) : Except Panic (List (Cell Str)) := cellsOf {} (tokenize cl s)
 
